@@ -170,4 +170,77 @@ theorem mem_walkEntries : (es : Entries) → (p : List String) → (p ∈ walkEn
         · right; exact h
     · simp [hd]
 
+/-! ### the sub-packages the walk passes through (`with_pkg=True`) -/
+
+theorem not_subPkg_nil (p : List String) : ¬ SubPkg .nil p := by
+  intro h
+  cases h with
+  | direct _ d m hm _ => simp [Entries.toList] at hm
+  | nested _ d m q hm _ _ => simp [Entries.toList] at hm
+
+theorem subPkg_cons_file (n : String) (r : Entries) (p : List String) : SubPkg (.cons n .file r) p ↔ SubPkg r p := by
+  constructor
+  · intro h
+    cases h with
+    | direct _ d m hm hd =>
+      simp only [Entries.toList, List.mem_cons, Prod.mk.injEq] at hm
+      rcases hm with ⟨_, h2⟩ | hm
+      · cases h2
+      · exact SubPkg.direct r d m hm hd
+    | nested _ d m q hm hd hq =>
+      simp only [Entries.toList, List.mem_cons, Prod.mk.injEq] at hm
+      rcases hm with ⟨_, h2⟩ | hm
+      · cases h2
+      · exact SubPkg.nested r d m q hm hd hq
+  · intro h
+    cases h with
+    | direct _ d m hm hd => exact SubPkg.direct _ d m (by simp [Entries.toList, hm]) hd
+    | nested _ d m q hm hd hq => exact SubPkg.nested _ d m q (by simp [Entries.toList, hm]) hd hq
+
+theorem subPkg_cons_dir (n : String) (d r : Entries) (p : List String) :
+    SubPkg (.cons n (.dir d) r) p ↔ ((d.isPkg = true ∧ (p = [n] ∨ ∃ q, p = n :: q ∧ SubPkg d q)) ∨ SubPkg r p) := by
+  constructor
+  · intro h
+    cases h with
+    | direct _ d' m hm hd =>
+      simp only [Entries.toList, List.mem_cons, Prod.mk.injEq] at hm
+      rcases hm with ⟨h1, h2⟩ | hm
+      · have : d' = d := by injection h2
+        subst this
+        exact Or.inl ⟨hd, Or.inl (by rw [h1])⟩
+      · exact Or.inr (SubPkg.direct r d' m hm hd)
+    | nested _ d' m q hm hd hq =>
+      simp only [Entries.toList, List.mem_cons, Prod.mk.injEq] at hm
+      rcases hm with ⟨h1, h2⟩ | hm
+      · have : d' = d := by injection h2
+        subst this
+        exact Or.inl ⟨hd, Or.inr ⟨q, by rw [h1], hq⟩⟩
+      · exact Or.inr (SubPkg.nested r d' m q hm hd hq)
+  · rintro (⟨hd, hp | ⟨q, hp, hq⟩⟩ | h)
+    · subst hp; exact SubPkg.direct _ d n (by simp [Entries.toList]) hd
+    · subst hp; exact SubPkg.nested _ d n q (by simp [Entries.toList]) hd hq
+    · cases h with
+      | direct _ d' m hm hd => exact SubPkg.direct _ d' m (by simp [Entries.toList, hm]) hd
+      | nested _ d' m q hm hd hq => exact SubPkg.nested _ d' m q (by simp [Entries.toList, hm]) hd hq
+
+/-- the walk passes through exactly the regular packages nested in regular packages -/
+theorem mem_walkPkgEntries : (es : Entries) → (p : List String) → (p ∈ walkPkgEntries es ↔ SubPkg es p)
+  | .nil, p => by simp [walkPkgEntries, not_subPkg_nil]
+  | .cons n .file r, p => by
+    rw [subPkg_cons_file, walkPkgEntries, mem_walkPkgEntries r p]
+  | .cons n (.dir d) r, p => by
+    rw [subPkg_cons_dir, walkPkgEntries, List.mem_append, mem_walkPkgEntries r p]
+    by_cases hd : d.isPkg = true
+    · simp only [hd, if_true, List.mem_cons, List.mem_map, true_and]
+      constructor
+      · rintro ((h | ⟨q, hq, rfl⟩) | h)
+        · exact Or.inl (Or.inl h)
+        · exact Or.inl (Or.inr ⟨q, rfl, (mem_walkPkgEntries d q).mp hq⟩)
+        · exact Or.inr h
+      · rintro ((h | ⟨q, rfl, hq⟩) | h)
+        · exact Or.inl (Or.inl h)
+        · exact Or.inl (Or.inr ⟨q, (mem_walkPkgEntries d q).mpr hq, rfl⟩)
+        · exact Or.inr h
+    · simp [hd]
+
 end LPVerif.FS
